@@ -12,6 +12,10 @@ pub mod c08;
 pub mod c09;
 pub mod c10;
 pub mod c11;
+pub mod c12;
+pub mod c13;
+pub mod c14;
+pub mod fsx;
 pub mod c15;
 pub mod c16;
 pub mod c17;
@@ -43,6 +47,18 @@ pub fn run(prop: &str, cx: &mut Ctx) -> bool {
         "C09" => c09::run(cx),
         "C10" => c10::run(cx),
         "C11" => c11::run(cx),
+        "C12" => {
+            fsx::set_scratch(cx.a.scratch.clone());
+            c12::run(cx)
+        }
+        "C13" => {
+            fsx::set_scratch(cx.a.scratch.clone());
+            c13::run(cx)
+        }
+        "C14" => {
+            fsx::set_scratch(cx.a.scratch.clone());
+            c14::run(cx)
+        }
         "C15" => c15::run(cx),
         "C16" => c16::run(cx),
         "C17" => c17::run(cx),
